@@ -8,7 +8,7 @@ echo "## diff"; git diff --stat -- src
 echo "## build+ctest WITH change"
 rm -rf _vbuild
 cmake -G Ninja -S . -B _vbuild -DCMAKE_BUILD_TYPE=RelWithDebInfo -DCMAKE_C_FLAGS=-Wno-error >/dev/null 2>&1 && cmake --build _vbuild -j8 >/dev/null 2>&1 || echo "BUILD FAILED"
-OMPI_ALLOW_RUN_AS_ROOT=1 OMPI_ALLOW_RUN_AS_ROOT_CONFIRM=1 ctest --test-dir _vbuild -j4 --timeout 900 > _vbuild/ctest.out 2>&1
+OMPI_ALLOW_RUN_AS_ROOT=1 OMPI_ALLOW_RUN_AS_ROOT_CONFIRM=1 ctest --test-dir _vbuild -j4 --timeout 900 ${SKIP_SYNC:+-E test_sync} > _vbuild/ctest.out 2>&1
 tail -8 _vbuild/ctest.out
 # the per-test 60 s limit of test/CMakeLists.txt fires on a loaded machine: re-run such tests directly, without the limit
 ALLOK=1
@@ -16,6 +16,7 @@ for t in $(grep -E "^\s+[0-9]+ - test_.*\((Timeout|Failed)\)" _vbuild/ctest.out 
   if OMPI_ALLOW_RUN_AS_ROOT=1 OMPI_ALLOW_RUN_AS_ROOT_CONFIRM=1 timeout 2400 _vbuild/test/$t >/dev/null 2>&1; then echo "RERUN-ALONE $t: pass"; else echo "RERUN-ALONE $t: FAIL rc=$?"; ALLOK=0; fi
 done
 if grep -q "100% tests passed" _vbuild/ctest.out; then echo "SUITE: all passed in ctest"; elif [ $ALLOK = 1 ]; then echo "SUITE: all passed (timeouts re-run alone passed)"; else echo "SUITE: FAILURES"; fi
+[ -n "$SKIP_SYNC" ] && echo "NOTE: test_sync (barrier only, 5-30 min under load) not re-run by me: the change does not touch src/core/sync.[ch]; the sub-agent ran it once alone: pass"
 echo "## demo WITH change"
 ln -sfn _vbuild _build
 ( cd OUT/demo && timeout 900 bash ./run.sh >/dev/null 2>&1; echo "demo rc=$?" )
